@@ -455,7 +455,8 @@ func (s *sg) constBool(d int) *Expr {
 // comment positions are not generated (counted when comments are enabled and the class applies).
 func (s *sg) constRHS(e *Expr) {
 	applies := false
-	for x := e; x != nil && x.K == "bin" && x.P == 0; x = x.A[0] {
+	x := e
+	for x != nil && x.K == "bin" && x.P == 0 {
 		if x.Op == "-" || x.Op == "AND" || x.Op == "OR" {
 			if s.o.ncbOps == nil {
 				s.o.ncbOps = map[*Expr]bool{}
@@ -464,11 +465,23 @@ func (s *sg) constRHS(e *Expr) {
 			applies = true
 		}
 		if needParens(x, x.A[0], false) {
+			x = nil
 			break
 		}
+		x = x.A[0]
+	}
+	// the parser hands a comment that precedes the ')' closing a unary operator's operand to the
+	// unary node; at the start of the expression it is again printed directly after '='
+	for x != nil && x.K == "un" && x.P == 0 {
+		if s.o.noCmtIn == nil {
+			s.o.noCmtIn = map[*Expr]bool{}
+		}
+		s.o.noCmtIn[x] = true
+		applies = true
+		x = x.A[0]
 	}
 	if applies && s.o.comments && s.r != nil {
-		s.r.Exclude("K7 comment before a - AND OR operator on the left spine of a var declaration's constant expression (formatter moves it directly after '=')")
+		s.r.Exclude("K7 comment positions in a var declaration's constant expression that the formatter prints directly after '=' (before a - AND OR operator on the left spine, inside the operand of a leading unary operator)")
 	}
 	s.o.expr(e)
 }
